@@ -63,8 +63,59 @@ Proof.
     unfold rowf in Htot at 1 2. unfold rowf, cellf in *. lia.
 Qed.
 
+Lemma count_by_one : forall o img s r c r1 c1 x1,
+  gget s r1 c1 = Some x1 -> is_image_cell o x1 = img -> obj_covers o x1 r1 c1 r c = true ->
+  1 <= cover_count_by o img s r c.
+Proof.
+  intros o img s r c r1 c1 x1 H1 Hi Hc. unfold cover_count_by, mapi. unfold gget in H1.
+  destruct (nth_error s r1) as [row1|] eqn:E1; [|discriminate].
+  set (cellf := fun r0 c0 x => if Bool.eqb (is_image_cell o x) img && obj_covers o x r0 c0 r c then 1 else 0).
+  set (rowf := fun r0 row => list_sum (mapi_from (cellf r0) 0 row)).
+  pose proof (list_sum_mapi_from_ge (cellf r1) row1 0 c1 x1 H1) as Ha. simpl in Ha.
+  unfold cellf in Ha at 1. rewrite Hi, Bool.eqb_reflx, Hc in Ha. simpl in Ha.
+  pose proof (list_sum_mapi_from_ge rowf s 0 r1 row1 E1) as Htot. simpl in Htot.
+  unfold rowf in Htot at 1. unfold rowf, cellf in *. lia.
+Qed.
+
+Lemma count_by_two : forall o img s r c r1 c1 r2 c2 x1 x2,
+  gget s r1 c1 = Some x1 -> gget s r2 c2 = Some x2 ->
+  is_image_cell o x1 = img -> is_image_cell o x2 = img ->
+  obj_covers o x1 r1 c1 r c = true -> obj_covers o x2 r2 c2 r c = true ->
+  (r1, c1) <> (r2, c2) -> 2 <= cover_count_by o img s r c.
+Proof.
+  intros o img s r c r1 c1 r2 c2 x1 x2 H1 H2 Hi1 Hi2 Hc1 Hc2 Hne. unfold cover_count_by, mapi.
+  unfold gget in H1, H2.
+  destruct (nth_error s r1) as [row1|] eqn:E1; [|discriminate].
+  destruct (nth_error s r2) as [row2|] eqn:E2; [|discriminate].
+  set (cellf := fun r0 c0 x => if Bool.eqb (is_image_cell o x) img && obj_covers o x r0 c0 r c then 1 else 0).
+  set (rowf := fun r0 row => list_sum (mapi_from (cellf r0) 0 row)).
+  destruct (Nat.eq_dec r1 r2) as [->|Hr].
+  - rewrite E1 in E2. inversion E2; subst row2.
+    assert (Hc : c1 <> c2) by congruence.
+    pose proof (list_sum_mapi_from_two (cellf r2) row1 0 c1 c2 x1 x2 Hc H1 H2) as Hrow.
+    simpl in Hrow. unfold cellf in Hrow at 1 2. rewrite Hi1, Hi2, Bool.eqb_reflx, Hc1, Hc2 in Hrow. simpl in Hrow.
+    pose proof (list_sum_mapi_from_ge rowf s 0 r2 row1 E1) as Htot. simpl in Htot.
+    unfold rowf in Htot at 1. unfold rowf, cellf in *. lia.
+  - pose proof (list_sum_mapi_from_ge (cellf r1) row1 0 c1 x1 H1) as Ha. simpl in Ha.
+    unfold cellf in Ha at 1. rewrite Hi1, Bool.eqb_reflx, Hc1 in Ha. simpl in Ha.
+    pose proof (list_sum_mapi_from_ge (cellf r2) row2 0 c2 x2 H2) as Hb. simpl in Hb.
+    unfold cellf in Hb at 1. rewrite Hi2, Bool.eqb_reflx, Hc2 in Hb. simpl in Hb.
+    pose proof (list_sum_mapi_from_two rowf s 0 r1 r2 row1 row2 Hr E1 E2) as Htot. simpl in Htot.
+    unfold rowf in Htot at 1 2. unfold rowf, cellf in *. lia.
+Qed.
+
+Lemma is_img_cell : forall o x, is_img (resolve o x) -> is_image_cell o x = true.
+Proof. intros o x [i H]. unfold is_image_cell. rewrite H. reflexivity. Qed.
+
+Lemma occupies_not_glyph : forall o x r0 c0 r c, occupies o (resolve o x) r0 c0 r c ->
+  is_image_cell o x = true \/ (is_image_cell o x = false /\ exists ch, ckind (resolve o x) = KChar ch).
+Proof.
+  intros o x r0 c0 r c H. unfold occupies in H. unfold is_image_cell.
+  destruct (ckind (resolve o x)) as [ch|i|g]; eauto; try contradiction.
+Qed.
+
 Theorem good_of_bool : forall o h w s,
-  in_domain o h w s = true -> overlap_free o h w s = true -> Good o h w (gmap (resolve o) s).
+  in_domain o h w s = true -> no_image_overlap o h w s = true -> Good o h w (gmap (resolve o) s).
 Proof.
   intros o h w s Hdom Hov. unfold in_domain in Hdom. apply andb_true_iff in Hdom.
   destruct Hdom as [Hd Hcells]. apply grid_dims_true in Hd.
@@ -72,6 +123,29 @@ Proof.
   { intros r c x Hx. unfold gget in Hx. destruct (nth_error s r) as [row|] eqn:Er; [|discriminate].
     rewrite forallb_forall in Hcells. specialize (Hcells row (nth_error_In _ _ Er)).
     rewrite forallb_forall in Hcells. apply Hcells. apply in_mapi. exists c, x. auto. }
+  unfold no_image_overlap, overlap_kinds in Hov.
+  apply andb_true_iff in Hov. destruct Hov as [Hii Hwi].
+  apply negb_true_iff in Hii. apply negb_true_iff in Hwi.
+  assert (Hat : forall r c, r < h -> c < w ->
+            cover_count_by o true s r c <= 1
+            /\ (1 <= cover_count_by o true s r c -> cover_count_by o false s r c = 0)).
+  { intros r c Hr Hc.
+    assert (Hin : In (cover_count_by o true s r c, cover_count_by o false s r c)
+                     (map (fun '(r, c) => (cover_count_by o true s r c, cover_count_by o false s r c)) (all_pos h w))).
+    { apply in_map_iff. exists (r, c). split; auto. apply in_all_pos. auto. }
+    split.
+    - destruct (Nat.le_gt_cases (cover_count_by o true s r c) 1) as [H|H]; auto. exfalso.
+      assert (E : existsb (fun '(ni, _) => 2 <=? ni)
+                    (map (fun '(r, c) => (cover_count_by o true s r c, cover_count_by o false s r c)) (all_pos h w)) = true).
+      { apply existsb_exists. exists (cover_count_by o true s r c, cover_count_by o false s r c).
+        split; [exact Hin|]. apply Nat.leb_le. lia. }
+      congruence.
+    - intros H1. destruct (cover_count_by o false s r c) eqn:E0; auto. exfalso.
+      assert (E : existsb (fun '(ni, nw) => (1 <=? ni) && (1 <=? nw))
+                    (map (fun '(r, c) => (cover_count_by o true s r c, cover_count_by o false s r c)) (all_pos h w)) = true).
+      { apply existsb_exists. exists (cover_count_by o true s r c, S n).
+        split; [exact Hin|]. apply andb_true_iff. split; apply Nat.leb_le; lia. }
+      congruence. }
   constructor.
   - apply gdims_gmap. exact Hd.
   - intros r c x' Hx'. rewrite gget_gmap in Hx'.
@@ -82,19 +156,30 @@ Proof.
     + rewrite orb_true_iff, andb_true_iff, !Nat.eqb_eq, Nat.leb_le in Hcell. lia.
     + destruct (isz o i) as [ih iw]. simpl. rewrite andb_true_iff, !Nat.leb_le in Hcell. lia.
     + discriminate.
-  - intros r c r1 c1 r2 c2 x1' x2' Hr Hc H1 H2 Ho1 Ho2.
+  - intros r c r1 c1 r2 c2 x1' x2' Hr Hc H1 H2 Ho1 Ho2 Himg.
     rewrite gget_gmap in H1, H2.
     destruct (gget s r1 c1) as [x1|] eqn:E1; [|discriminate].
     destruct (gget s r2 c2) as [x2|] eqn:E2; [|discriminate].
     simpl in H1, H2. inversion H1; subst x1'. inversion H2; subst x2'.
+    pose proof (occupies_not_glyph o x1 r1 c1 r c Ho1) as K1.
+    pose proof (occupies_not_glyph o x2 r2 c2 r c Ho2) as K2.
     apply obj_covers_occupies in Ho1. apply obj_covers_occupies in Ho2.
+    destruct (Hat r c Hr Hc) as [Hle1 Hzero].
     destruct (Nat.eq_dec r1 r2) as [->|Hne]; [destruct (Nat.eq_dec c1 c2) as [->|Hne]|]; auto; exfalso.
     + assert (Hp : (r2, c1) <> (r2, c2)) by congruence.
-      pose proof (cover_count_two o s r c r2 c1 r2 c2 x1 x2 E1 E2 Ho1 Ho2 Hp) as H.
-      unfold overlap_free in Hov. rewrite forallb_forall in Hov.
-      specialize (Hov (r, c) ltac:(apply in_all_pos; auto)). simpl in Hov. apply Nat.leb_le in Hov. lia.
+      destruct K1 as [K1|[K1 _]]; destruct K2 as [K2|[K2 _]].
+      * pose proof (count_by_two o true s r c r2 c1 r2 c2 x1 x2 E1 E2 K1 K2 Ho1 Ho2 Hp). lia.
+      * pose proof (count_by_one o true s r c r2 c1 x1 E1 K1 Ho1) as Ha.
+        pose proof (count_by_one o false s r c r2 c2 x2 E2 K2 Ho2) as Hb. rewrite (Hzero Ha) in Hb. lia.
+      * pose proof (count_by_one o true s r c r2 c2 x2 E2 K2 Ho2) as Ha.
+        pose proof (count_by_one o false s r c r2 c1 x1 E1 K1 Ho1) as Hb. rewrite (Hzero Ha) in Hb. lia.
+      * destruct Himg as [Hi|Hi]; apply is_img_cell in Hi; congruence.
     + assert (Hp : (r1, c1) <> (r2, c2)) by congruence.
-      pose proof (cover_count_two o s r c r1 c1 r2 c2 x1 x2 E1 E2 Ho1 Ho2 Hp) as H.
-      unfold overlap_free in Hov. rewrite forallb_forall in Hov.
-      specialize (Hov (r, c) ltac:(apply in_all_pos; auto)). simpl in Hov. apply Nat.leb_le in Hov. lia.
+      destruct K1 as [K1|[K1 _]]; destruct K2 as [K2|[K2 _]].
+      * pose proof (count_by_two o true s r c r1 c1 r2 c2 x1 x2 E1 E2 K1 K2 Ho1 Ho2 Hp). lia.
+      * pose proof (count_by_one o true s r c r1 c1 x1 E1 K1 Ho1) as Ha.
+        pose proof (count_by_one o false s r c r2 c2 x2 E2 K2 Ho2) as Hb. rewrite (Hzero Ha) in Hb. lia.
+      * pose proof (count_by_one o true s r c r2 c2 x2 E2 K2 Ho2) as Ha.
+        pose proof (count_by_one o false s r c r1 c1 x1 E1 K1 Ho1) as Hb. rewrite (Hzero Ha) in Hb. lia.
+      * destruct Himg as [Hi|Hi]; apply is_img_cell in Hi; congruence.
 Qed.
